@@ -1,7 +1,7 @@
 (* C08 -- concurrent Run calls on one Engine: race-free lock protocol, linearizable type cache, per-run confinement.
    Props file: statements only; proofs are in RG.Locks.* (generic) and Inst_Locks.v (about the regenerated tables). *)
 From Coq Require Import List NArith String Bool.
-From RG.Locks Require Import Model Sites Cache Confine Progress.
+From RG.Locks Require Import Model Sites Cache Confine Progress Frozen.
 From RGW Require Import Gen_Locks Inst_Locks.
 Import ListNotations.
 Local Open Scope N_scope.
@@ -90,6 +90,18 @@ Proof.
 Qed.
 Print Assumptions loadtime_objects_read_only.
 
+(* ... so the threads of the real system are extracted paths with READS of Load-time objects in between, and for those:
+   ANY number of threads, ANY path each, reads of ANY Load-time object at ANY points, ANY interleaving -- no data race *)
+Theorem run_with_loadtime_reads_race_free :
+  forall progs, Forall (fun q => exists p, In p run_progs /\ with_frozen_reads guard_lt p q) progs ->
+  forall s, reachable (init progs) s -> ~ race s.
+Proof. exact Inst_Locks.run_with_loadtime_reads_race_free. Qed.
+Print Assumptions run_with_loadtime_reads_race_free.
+
+Theorem no_loadtime_write_sites : lt_write_sites = [].
+Proof. exact Inst_Locks.no_loadtime_write_sites. Qed.
+Print Assumptions no_loadtime_write_sites.
+
 (* the write-site scan is closed under the static calls that leave a package *)
 Theorem run_scan_closed :
   forall caller pkg callee, In (caller, pkg, callee) gen_run_xcalls -> In pkg gen_scanned_pkgs /\ ~ In callee gen_load_only.
@@ -103,6 +115,10 @@ Proof.
     rewrite E in H2. discriminate.
 Qed.
 Print Assumptions run_scan_closed.
+
+Theorem run_spawns_no_goroutine : gen_run_gostmts = [].
+Proof. exact Inst_Locks.run_spawns_no_goroutine. Qed.
+Print Assumptions run_spawns_no_goroutine.
 
 Theorem run_arguments_read_only :
   forall w, In w gen_run_writes -> caller_owned (snd (fst w)) = false.
@@ -156,6 +172,21 @@ Example memo_in_shared_pattern_rejected :
        ("typematch.(*Pattern).matchIdentical", "typematch.MatcherState", "typeMatches")]%string
   = [false; false; false; true].
 Proof. vm_compute. reflexivity. Qed.
+
+(* a thread that reads Load-time objects between its lock operations is a thread of the theorem; one write to such an
+   object anywhere in a path and the discipline check rejects it -- and two such writers do race in the model *)
+Example loadtime_reads_admitted :
+  with_frozen_reads guard_lt [RLock 0; RUnlock 0] [Read 1000; RLock 0; Read 1003; RUnlock 0; Read 1001].
+Proof. repeat (first [apply wfr_nil | apply wfr_keep | apply wfr_ins; [reflexivity|]]). Qed.
+
+Example loadtime_write_rejected : ok guard_lt [] [Read 1000; Write 1000] = false.
+Proof. apply (ok_rejects_frozen_write guard_lt [Read 1000] 1000 [] []). reflexivity. Qed.
+
+Example loadtime_writers_race : exists s, reachable (init [[Write 1000]; [Read 1000]]) s /\ race s.
+Proof.
+  exists (init [[Write 1000]; [Read 1000]]). split; [constructor|].
+  exists [], (T [] [Write 1000]), [], (T [] [Read 1000]), [], 1000, true, false. cbn. repeat split; auto.
+Qed.
 
 (* a lock-order inversion deadlocks in this model (and is rejected by the order check) *)
 Example inversion_rejected :
